@@ -107,6 +107,16 @@ pub fn palettes(r: &mut Rng, n_random: usize) -> Vec<(String, Palette)> {
         };
     }
     v.push(("near_vga".into(), Palette(near)));
+    // every entry far from one corner of the cube: near-white / pastel only (a "no candidate yet" value must exceed every distance)
+    let mut pastel = [RgbColor(255, 255, 255); 16];
+    pastel[5] = RgbColor(255, 255, 0);
+    pastel[9] = RgbColor(250, 240, 255);
+    pastel[14] = RgbColor(255, 250, 205);
+    v.push(("near_white".into(), Palette(pastel)));
+    let mut dark = [RgbColor(0, 0, 0); 16];
+    dark[3] = RgbColor(0, 0, 9);
+    dark[11] = RgbColor(12, 0, 0);
+    v.push(("near_black".into(), Palette(dark)));
     // one repeated entry only (BrightWhite = White), the other bright entries distinct
     let mut one_dup = VGA.0;
     one_dup[15] = one_dup[7];
@@ -190,7 +200,7 @@ pub fn record(seed: u64, thorough: bool, shards: usize, prefix: &str) -> Value {
     // quick: the seeded lattice, then a boundary lattice (channel values within 2 of a cube level, of either end of the grey
     // ramp and of 0/255) - exact-hit shortcuts and early exits go wrong next to the fixed colours, not in the middle
     let mut boundary: Vec<usize> = Vec::new();
-    for centre in [0i64, 8, 95, 135, 175, 215, 238, 248, 255, 128] {
+    for centre in [0i64, 4, 8, 95, 135, 175, 215, 238, 248, 255, 128] {
         for d in -2i64..=2 {
             let v = centre + d;
             if (0..256).contains(&v) && !boundary.contains(&(v as usize)) {
